@@ -41,6 +41,7 @@ def gen(rng, index, tier):
     kn["tw_p"] = rng.choice([0.15, 0.35, 0.6])
     kn["tw_kinds"] = rng.sample(TW.KINDS, rng.randint(2, len(TW.KINDS)))
     kn["_tw"] = [0]
+    kn["rnd_p"] = rng.choice([0, 0.1, 0.25])
     ctx = D.Ctx(rng, spec, kn)
     script = D.gen_script(ctx, None, kn["call_depth"], top=True)
     for a in script:
@@ -126,6 +127,8 @@ def journal_summary(J):
             out.append([k, rec[1], summ(rec[2])])
         elif k == "B":
             out.append([k, rec[1], rec[2], summ(rec[3])])
+        elif k == "RND":
+            out.append([k, rec[1], repr(rec[2])])
         else:
             out.append([str(x) if not isinstance(x, (int, str, bool, type(None))) else x for x in rec])
     return out
@@ -146,9 +149,12 @@ def run_once(plan, lp, traced):
     from monkeytype.tracing import trace_calls
     import gc
 
+    import random as _rm
+
     rt.reset()
     TW.reset()
     gc.collect()
+    _rm.seed(plan.get("subset_seed", 0))   # the program's view of the global RNG must not depend on tracing
     D.get_driver()
     fnames = sorted({f["name"] for f in lp.funcs.values()})
     mat = D.Mat(lp, tw=TW.factory(fnames))
